@@ -106,6 +106,20 @@ func VxC12LockOnlyReplacedByNewerLock() {
 			vx.Cover("nil-precommit-sent")
 		}
 	}
+	// lines 36-41 the other way round: whenever the node precommits a value in this step, it holds a lock on
+	// exactly that value AT THE ROUND OF THE PRECOMMIT afterwards - also when it was already locked on the same
+	// value from an earlier round (a lock that keeps its old round would be released by a later proposal
+	// whose valid round lies between the two, line 28)
+	for _, a := range acts {
+		if pc, ok := a.(*actions.BroadcastPrecommit[vxH, vxA]); ok && pc.ID != nil {
+			vx.Cover("value-precommit-sent")
+			vx.Assert(sm.state.lockedRound == pc.Round && sm.state.lockedValue != nil && (*sm.state.lockedValue)[0] == (*pc.ID)[0],
+				"precommit-for-a-value-locks-it-at-the-round-of-the-precommit")
+			if lr >= 0 && lv == (*pc.ID)[0] {
+				vx.Cover("relock-on-the-value-already-locked")
+			}
+		}
+	}
 	lr1 := sm.state.lockedRound
 	unchanged := lr1 == lr && (lr < 0 || (sm.state.lockedValue != nil && (*sm.state.lockedValue)[0] == lv))
 	if lr < 0 {
